@@ -51,6 +51,7 @@ class Callback:
     raises: List[Any] = field(default_factory=list)  # exception classes it may raise
     returns: Optional[str] = None  # type of result
     requires: List[ClauseSrc] = field(default_factory=list)
+    present: Optional[str] = None  # spec expression: the attribute holding the callable is set
 
 
 @dataclass
@@ -64,6 +65,8 @@ class ClassContract:
     immutable: Optional[List[str]] = None  # fields never havocked (default: computed by scan)
     interface: bool = False
     doc: str = ""
+    task_rely: Dict[str, List[Clause]] = field(default_factory=dict)
+    task_inv: Dict[str, List[Clause]] = field(default_factory=dict)
 
 
 @dataclass
@@ -89,6 +92,7 @@ class FnContract:
     raises_clauses: Dict[str, List[Clause]] = field(default_factory=dict)
     modifies_fields: Optional[List[str]] = None
     returns_expr: Optional[str] = None
+    task: Optional[str] = None
 
 
 class Registry:
@@ -110,6 +114,8 @@ class Registry:
         immutable: Optional[List[str]] = None,
         interface: bool = False,
         props: Tuple[str, ...] = (),
+        task_rely: Optional[Dict[str, List[ClauseSrc]]] = None,
+        task_inv: Optional[Dict[str, List[ClauseSrc]]] = None,
     ) -> ClassContract:
         short = qualname.split(":")[1]
         c = ClassContract(
@@ -121,6 +127,8 @@ class Registry:
             callbacks=dict(callbacks or {}),
             immutable=immutable,
             interface=interface,
+            task_rely={t: mk_clauses(f"{short}.rely[{t}]", cs, props) for t, cs in (task_rely or {}).items()},
+            task_inv={t: mk_clauses(f"{short}.inv[{t}]", cs, props) for t, cs in (task_inv or {}).items()},
         )
         self.classes[qualname] = c
         return c
@@ -144,6 +152,7 @@ class Registry:
         ghost_pre: Optional[List[str]] = None,
         ghost_post: Optional[List[str]] = None,
         returns_expr: Optional[str] = None,
+        task: Optional[str] = None,
     ) -> FnContract:
         short = qualname.split(":")[1]
         rc: Dict[str, List[Clause]] = {}
@@ -174,6 +183,7 @@ class Registry:
             ghost_post=list(ghost_post or []),
             raises_clauses=rc,
             returns_expr=returns_expr,
+            task=task,
         )
         for lo in f.loops.values():
             lo["invariant"] = mk_clauses(f"{short}.loopinv", lo.get("invariant"), props)
